@@ -195,7 +195,7 @@ func (en *DefaultEngine) preparePersist() error {
 	}
 	st := en.pe.GetState()
 	if st != nil {
-		if en.st != nil {
+		if en.st != nil && en.st != st {
 			return errors.New("state cannot be explicitly set in both persister and engine.")
 		}
 		en.st = st
@@ -212,7 +212,7 @@ func (en *DefaultEngine) preparePersist() error {
 	}
 	if cac != nil {
 		logg.Debugf("ca", "ca", cac)
-		if en.ca != nil {
+		if en.ca != nil && en.ca != cac {
 			return errors.New("cache cannot be explicitly set in both persister and engine.")
 		}
 		en.ca = cac
